@@ -60,7 +60,11 @@ OPS == {"sort", "cdrsort", "slicepush", "append0", "restsort", "macroarg", "defi
         "hostwiden", "hostcall",
         \* a special operator that builds each step's call from a program node and a run-time value: the node (and the
         \* spare capacity the parser left behind it) belongs to the Program, the value to the runtime
-        "threadlast"}
+        "threadlast",
+        \* expansion-time state: a macro whose expansion reads a global the Program never sets, called by a TOP-LEVEL form
+        \* of the Program.  setflag sets the global; readmode reads what the top-level call produced at the LAST load:
+        \* a reload expands the call again, as a fresh parse would (nothing remembered per call site)
+        "setflag", "readmode"}
 LIT == <<3, 1, 2>>
 
 VARIABLES prog,      \* Program region: the literal's backing
@@ -73,7 +77,7 @@ Sorted(s) == SortSeq(s, LAMBDA a, b : a < b)
 TailOf(s) == SubSeq(s, 2, Len(s))
 
 \* result of an operation given the literal's current content and the runtime's counter
-Result(op, lit, counter, wide) ==
+Result(op, lit, counter, wide, mode) ==
   CASE op = "sort" -> Sorted(lit)
     [] op = "cdrsort" -> Sorted(TailOf(lit))
     [] op = "restsort" -> Sorted(TailOf(lit))
@@ -94,31 +98,35 @@ Result(op, lit, counter, wide) ==
     [] op = "reload" -> <<0>>
     [] op = "threadlast" -> <<7, 8, counter>>
     [] op = "hostwiden" -> <<1>>
+    [] op = "setflag" -> <<1>>
+    [] op = "readmode" -> <<mode>>
     [] op = "hostcall" -> IF wide THEN <<6>> ELSE <<-1>>
 
-RECURSIVE SoloRun(_, _, _, _)
-SoloRun(script, i, counter, wide) ==
+RECURSIVE SoloRun(_, _, _, _, _, _)
+SoloRun(script, i, counter, wide, flag, mode) ==
   IF i > Len(script) THEN <<>>
-  ELSE <<Result(script[i], LIT, counter, wide)>> \o
+  ELSE <<Result(script[i], LIT, counter, wide, mode)>> \o
        SoloRun(script, i + 1, IF script[i] = "define" THEN counter + 1 ELSE IF script[i] = "reload" THEN 0 ELSE counter,
-               wide \/ script[i] = "hostwiden")
-Solo(script) == SoloRun(script, 1, 0, FALSE)
+               wide \/ script[i] = "hostwiden", flag \/ script[i] = "setflag",
+               IF script[i] = "reload" THEN (IF flag THEN 1 ELSE 0) ELSE mode)
+Solo(script) == SoloRun(script, 1, 0, FALSE, FALSE, 0)
 
 \* scripts are chosen operation by operation (the same behaviours as choosing them up front, one initial state)
 Init == /\ prog = LIT /\ hdrs = {} /\ sched = <<>>
-        /\ rt = [r \in 1..R |-> [script |-> <<>>, pc |-> 1, counter |-> 0, results |-> <<>>, wide |-> FALSE]]
+        /\ rt = [r \in 1..R |-> [script |-> <<>>, pc |-> 1, counter |-> 0, results |-> <<>>, wide |-> FALSE, flag |-> FALSE, mode |-> 0]]
 
 Step(r) == \E op \in OPS :
   LET me == [rt[r] EXCEPT !.script = Append(@, op)] IN
   /\ rt[r].pc <= LEN
-  /\ LET res == Result(op, prog, me.counter, me.wide)
+  /\ LET res == Result(op, prog, me.counter, me.wide, me.mode)
          writes == ~COW /\ op \in {"sort", "append0", "slicefull", "slicelist", "quotecmp", "macroarg", "applyrest", "funcallopt", "mapsort", "foldsort"}        \* in-place sort through the literal
          prog2 == IF writes THEN Sorted(prog) ELSE prog IN
      /\ prog' = prog2
      /\ hdrs' = hdrs \cup {[rt |-> r, sealed |-> (COW \/ op \notin {"slicepush", "append0", "slicefull", "slicetail", "slicecdr"})]}
      /\ rt' = [rt EXCEPT ![r] = [me EXCEPT !.pc = @ + 1, !.results = Append(@, res),
                                           !.counter = IF op = "define" THEN @ + 1 ELSE IF op = "reload" THEN 0 ELSE @,
-                                          !.wide = @ \/ op = "hostwiden"]]
+                                          !.wide = @ \/ op = "hostwiden", !.flag = @ \/ op = "setflag",
+                                          !.mode = IF op = "reload" THEN (IF me.flag THEN 1 ELSE 0) ELSE @]]
      /\ sched' = Append(sched, r)
 Done == \A r \in 1..R : rt[r].pc > LEN
 Emit == /\ EMIT /\ Done /\ Len(sched) = R * LEN
